@@ -243,6 +243,40 @@ Section Transport.
       rewrite has_chunk_eq, const_final by reflexivity; reflexivity.
   Qed.
 
+  (* ---------- a chunk server whose upstream store answers / fails per call ---------- *)
+
+  (* HEAD: present -> true, absent -> false, an upstream FAILURE -> an error after max(1, budget)
+     requests (500 is retried) -- never "false" *)
+  Lemma upstream_head budget (u : has_result) :
+    has_chunk budget (const_script (handler_head u)) =
+    match u with
+    | HasYes => (HasTrue, 1%N)
+    | HasNo => (HasFalse, 1%N)
+    | HasFail => (HasErr, max_attempts budget)
+    end.
+  Proof using Type.
+    clear z_roundtrip z_nonempty. destruct u; cbn [handler_head]; rewrite has_chunk_eq.
+    - now rewrite const_final by reflexivity.
+    - now rewrite const_final by reflexivity.
+    - now rewrite const_500.
+  Qed.
+
+  (* GET: absent -> ChunkMissing, an upstream failure -> an error, never "missing" *)
+  Lemma upstream_get_not_present budget unc skip i (u : get_result) :
+    u = GMissing \/ u = GFail ->
+    get_chunk H zdecomp budget unc skip i (const_script (handler_get zcomp zdecomp (opt_converters unc) u)) =
+    match u with GMissing => (CMissing, 1%N) | _ => (CErr, max_attempts budget) end.
+  Proof using Type.
+    clear z_roundtrip z_nonempty. intros [-> | ->]; cbn [handler_get base_get]; unfold get_chunk; rewrite get_object_eq.
+    - now rewrite const_final by reflexivity.
+    - now rewrite const_500.
+  Qed.
+
+  (* PUT: an upstream StoreChunk failure is answered 500 -> the client's StoreChunk fails *)
+  Lemma upstream_put_failure budget :
+    store_object budget (const_script (resp 500 [])) = (false, max_attempts budget).
+  Proof using Type. clear z_roundtrip z_nonempty. rewrite store_object_eq, const_500. reflexivity. Qed.
+
   (* ---------- PUT, then GET ---------- *)
   Lemma transport_put budget c s ib d auth ch :
     wf_bytes ib -> length ib = 32%nat -> authorized c auth ->
